@@ -67,6 +67,8 @@ impl SubscriptionHub {
     #[cfg(unix)]
     pub async fn subscribe(&self, topic: &str, push_tx: mpsc::Sender<String>) -> String {
         let id = format!("sub-{}", self.next_id.fetch_add(1, Ordering::Relaxed));
+        #[cfg(feature = "verif-hooks")]
+        crate::net::verif_hooks::yield_point().await;
         self.entries.lock().await.push(Entry {
             id: id.clone(),
             topic: topic.to_string(),
@@ -79,6 +81,8 @@ impl SubscriptionHub {
     #[cfg(unix)]
     pub async fn unsubscribe(&self, id: &str) -> bool {
         let mut entries = self.entries.lock().await;
+        #[cfg(feature = "verif-hooks")]
+        crate::net::verif_hooks::yield_point().await;
         let before = entries.len();
         entries.retain(|e| e.id != id);
         before != entries.len()
@@ -93,6 +97,8 @@ impl SubscriptionHub {
         {
             let entries = self.entries.lock().await;
             for entry in entries.iter() {
+                #[cfg(feature = "verif-hooks")]
+                crate::net::verif_hooks::yield_point().await;
                 if entry.topic != topic {
                     continue;
                 }
@@ -120,6 +126,8 @@ impl SubscriptionHub {
             }
         }
         if !to_prune.is_empty() {
+            #[cfg(feature = "verif-hooks")]
+            crate::net::verif_hooks::yield_point().await;
             let mut entries = self.entries.lock().await;
             entries.retain(|e| !to_prune.contains(&e.id));
         }
